@@ -486,6 +486,38 @@ func (p *Program) factsWhenDepth(v ssa.Value, want bool, depth int) ([]guardFact
 		if x.Op == token.NOT {
 			return p.factsWhenDepth(x.X, !want, depth+1)
 		}
+	case *ssa.Call:
+		// a predicate helper (func isBinHeader(k string) bool { return strings.HasSuffix(k, "-bin") }): what holds
+		// in the helper whenever it returns `want`, in addition to the call's own outcome
+		callee := x.Call.StaticCallee()
+		if callee == nil || x.Call.IsInvoke() || !p.isTransparent(callee) || callee.Signature.Results().Len() != 1 || depth > 5 {
+			break
+		}
+		if bt, ok := callee.Signature.Results().At(0).Type().Underlying().(*types.Basic); !ok || bt.Kind() != types.Bool {
+			break
+		}
+		var common []guardFact
+		first := true
+		eachInstr(callee, func(in ssa.Instruction) {
+			rt, ok := in.(*ssa.Return)
+			if !ok || len(rt.Results) != 1 {
+				return
+			}
+			fs, imp := p.factsWhenDepth(rt.Results[0], want, depth+1)
+			if imp {
+				return
+			}
+			fs = append(fs, p.expandFacts(guardsOf(rt.Block()))...)
+			if first {
+				common, first = fs, false
+			} else {
+				common = intersectFacts(common, fs)
+			}
+		})
+		if first {
+			return nil, true
+		}
+		return append(common, guardFact{Cond: v, True: want}), false
 	case *ssa.Phi:
 		var common []guardFact
 		first := true
